@@ -102,9 +102,11 @@ def hostile_name(rng, klass=None, maxbytes=48, allow_bad_utf8=True):
         n = _rand_bytes_name(rng, rng.randint(1, 12))
     elif klass == 'trashy':
         # names the trash itself uses
-        n = rng.choice(['files', 'info', '.Trash', '.Trash-1000', '.Trash-0',
+        # ('files' and 'info' themselves are left out: the oracles tell the
+        # two directories of a trash dir by those names)
+        n = rng.choice(['Files', 'info ', '.Trash', '.Trash-1000', '.Trash-0',
                         'Trash', 'directorysizes', 'expunged', 'info.trashinfo',
-                        '.local'])
+                        '.local', 'files.d'])
     elif klass == 'terminal':
         # what a terminal or a line-oriented consumer would choke on
         n = rng.choice(['\x1b[31mred\x1b[0m', 'bell\x07', 'back\x08\x08', 'a\x1b]0;title\x07b',
